@@ -108,8 +108,27 @@ def rerun(names):
         print(name, "caught by", meta["caught_by"], {p: r["keys"][:1] for p, r in meta["checks"].items()})
 
 
+def table():
+    base = os.path.join(HERE, "seeded")
+    rows = ["| seeded change | what it is / what it needs to manifest | confirmed (demo without / with, suite) | caught by (quick tier) | first key |", "|---|---|---|---|---|"]
+    summaries = json.load(open(os.path.join(base, "summaries.json")))
+    for name in sorted(os.listdir(base)):
+        mp = os.path.join(base, name, "meta.json")
+        if not os.path.exists(mp):
+            continue
+        m = json.load(open(mp))
+        m.setdefault("summary", summaries.get(name, ""))
+        conf = f"{m.get('demo_without_patch', {}).get('rc')} / {m.get('demo_with_patch', {}).get('rc')}, " + \
+               (m.get("suite_with_patch", {}).get("tail", "").strip().splitlines()[-1][:28] if m.get("suite_with_patch") else "?")
+        keys = [r["keys"][0][4:90] for p, r in m.get("checks", {}).items() if r["rc"] == 1 and r["keys"]]
+        rows.append(f"| `seeded/{name}` | {m.get('summary', '')} | {conf} | {', '.join(m.get('caught_by', [])) or 'MISSED'} | {keys[0] if keys else ''} |")
+    print("\n".join(rows))
+
+
 if __name__ == "__main__":
-    if sys.argv[1] == "ingest":
+    if sys.argv[1] == "table":
+        table()
+    elif sys.argv[1] == "ingest":
         extra = []
         name = None
         args = sys.argv[4:]
